@@ -43,7 +43,7 @@ class RngRecorder:
         self.sites = []
         self.coord_draws = {}
 
-    def site(self):
+    def site(self, fn="normal"):
         f = sys._getframe(2)
         names = []
         while f is not None:
@@ -54,9 +54,12 @@ class RngRecorder:
             if nm in OUTER:
                 return OUTER[nm]
             if nm == "initialise_coordinate_directions":
+                # selector arrays (np.random.randint: drawn once unconditionally and again after every round of the sign-flip
+                # loop; a selector only chooses which sign flips are TRIED, a flip is kept only when it raises the rank) versus
+                # random replacement directions (np.random.normal in the last repair loop: these become evaluation points)
                 k = self.coord_draws.get(fid, 0)
                 self.coord_draws[fid] = k + 1
-                return "projSelector" if k == 0 else "projRepair"
+                return "projSelector" if fn == "randint" else "projRepair"
         return "other"
 
     def __enter__(self):
@@ -68,7 +71,7 @@ class RngRecorder:
             return rec.real_normal(*a, **k)
 
         def randint(*a, **k):
-            rec.sites.append(rec.site())
+            rec.sites.append(rec.site("randint"))
             return rec.real_randint(*a, **k)
         np.random.normal, np.random.randint = normal, randint
         return self
@@ -91,6 +94,12 @@ def families(rng, prob):
            ("scaled", {"bounds": (xl, xu), "scaling_within_bounds": True, "rhobeg": 0.1}),
            ("regression-max-npt", {"npt": (n + 1) * (n + 2) // 2}),                                # largest set the coordinate initialisation supports
            ("convex", {"projections": [lambda x, c=x0 + 0.3: problems.pball(x, c, 1.5)]}),
+           # x0 ON the boundary of the ball where the first coordinate step projects back onto x0, with a practical rank tolerance
+           # (documented option): the rank-repair loops of the projection branch run and DRAW selectors, which must not decide
+           # which directions are used when the rank does not change
+           ("convex-x0-on-boundary-rank-tol", {"projections": [lambda x, c=x0 - 1.0 * np.eye(n)[0]: problems.pball(x, c, 1.0)],
+                                               "user_params": {"matrix_rank.r_tol": 1e-12}}),
+           ("convex-bounded", {"projections": [lambda x, c=x0 + 0.3: problems.pball(x, c, 1.5)], "bounds": (xl, xu)}),
            ("regression", {"npt": 2 * n + 1, "user_params": {"regression.num_extra_steps": 1}}),
            ("regularised", {"h": lambda x: 0.1 * float(np.sum(np.abs(x))), "lh": 0.1 * np.sqrt(n),
                             "prox_uh": lambda x, u: np.sign(x) * np.maximum(np.abs(x) - 0.1 * u, 0.0)}),
@@ -140,8 +149,11 @@ def one_solve(dfols, prob, kw, state, maxfun):
             kw2[k] = b
         elif k == "user_params":
             kw2[k] = dict(v)
+        elif k == "projections":
+            kw2[k] = list(v)            # the caller's own list object: must come back with the same elements
         else:
             kw2[k] = v
+    proj_before = [id(p) for p in kw2["projections"]] if "projections" in kw2 else None
     before = {"x0": x0.tobytes(), "bounds": None if "bounds" not in kw2 else [None if a is None else a.tobytes() for a in kw2["bounds"]],
               "user_params": copy.deepcopy(kw2.get("user_params"))}
     seq = []
@@ -174,6 +186,8 @@ def one_solve(dfols, prob, kw, state, maxfun):
                 mut.append("bounds array modified")
     if kw2.get("user_params") != before["user_params"]:
         mut.append("user_params modified: %r -> %r" % (before["user_params"], kw2.get("user_params")))
+    if proj_before is not None and [id(p) for p in kw2["projections"]] != proj_before:
+        mut.append("the caller's projections list was modified (%d -> %d entries)" % (len(proj_before), len(kw2["projections"])))
     return seq, res, rec.sites, mut
 
 
